@@ -61,6 +61,7 @@ class _Tunnel(Interface):
         "_reconnect_task",
         "_requested_address",
         "_send_lock",
+        "_sequence_number_used",
         "_src_address",
         "auto_reconnect",
         "auto_reconnect_wait",
@@ -89,6 +90,7 @@ class _Tunnel(Interface):
         self.communication_channel: int | None = None
         self.local_hpai: HPAI = HPAI()
         self.sequence_number = 0
+        self._sequence_number_used = False
         self.cemi_received_callback = cemi_received_callback
         self._data_endpoint_addr: tuple[str, int] | None = None
         self._disconnecting = False
@@ -164,6 +166,7 @@ class _Tunnel(Interface):
     def _tunnel_established(self) -> None:
         """Set up interface when the tunnel is ready."""
         self.sequence_number = 0
+        self._sequence_number_used = False
         self.start_heartbeat()
 
     def _tunnel_lost(self) -> None:
@@ -365,6 +368,7 @@ class _Tunnel(Interface):
             sequence_counter=self.sequence_number,
             raw_cemi=raw_cemi,
         )
+        self._sequence_number_used = True
         await self._send_tunnelling_request(tunnelling_request)
 
     @abstractmethod
@@ -372,8 +376,12 @@ class _Tunnel(Interface):
         """Send TunnellingRequest frame to tunnelling device."""
 
     def _increase_sequence_number(self) -> None:
-        """Increase sequence number."""
-        self.sequence_number = self.sequence_number + 1 & 0xFF
+        """Increase sequence number - if a frame of the current connection used it."""
+        # a send still pending while the tunnel was re-established must not
+        # advance the counter of the new connection
+        if self._sequence_number_used:
+            self._sequence_number_used = False
+            self.sequence_number = self.sequence_number + 1 & 0xFF
 
     ####################
     #
